@@ -245,9 +245,10 @@ pub fn run_c11(run: &Run) {
         }
         run.extra(&format!("sequences_per_adf[{}]", name), json!(per_adf));
     }
-    // abandoned enumerations: all sequences over the alphabet extended by "first model only" variants of the lazy
-    // enumerations that contain at least one of them (what an abandoned enumeration leaves behind in the shared
-    // tables must not matter later)
+    // abandoned enumerations and the repair step: all sequences over the alphabet extended by "first model only"
+    // variants of the lazy enumerations and by fix_import() on a live object that contain at least one of them (what an
+    // abandoned enumeration leaves behind in the shared tables must not matter later; the repair step is a public call
+    // like any other and must leave a healthy object healthy)
     {
         let plan: Vec<(Source, usize, bool)> = if quick {
             vec![(Source::FamCompact(fam_a(2)), 3, false), (Source::FamCompact(fam_f(3, 1)), 2, false), (Source::FamCompact(fam_f(3, 1)), 2, true)]
@@ -255,7 +256,7 @@ pub fn run_c11(run: &Run) {
             vec![(Source::FamCompact(fam_a(2)), 3, false), (Source::FamCompact(fam_f(3, 1)), 3, false), (Source::FamCompact(fam_a(2)), 3, true), (Source::FamCompact(fam_f(3, 1)), 2, true)]
         };
         for (src, maxlen, bridged) in plan {
-            let name = format!("call sequences of length <= {} with abandoned enumerations on {} ({})", maxlen, src.name(), if bridged { "bridged" } else { "native" });
+            let name = format!("call sequences of length <= {} with abandoned enumerations / the repair step on {} ({})", maxlen, src.name(), if bridged { "bridged" } else { "native" });
             let res = run.par_family(
                 &name,
                 src.size(),
